@@ -572,6 +572,7 @@ Fixpoint labels_join_idx (ppl : list stage) (simple : list bool) (i : nat) : opt
     | PLabelFilter _ => if b then labels_join_idx r bs (S i) else Some i
     | PLineFormat _ => Some i
     | PDrop _ => Some i
+    | PUnwrap _ => Some i
     | _ => labels_join_idx r bs (S i)
     end
   | _, _ => None
